@@ -1,7 +1,7 @@
 //! unit: u12c
 //! properties: C12
 //! note: ProbabilisticScorer persistence (routing/scoring.rs ChannelLiquidity): every field is written under the TLV type it is read back from, so what is read back is the liquidity record that was written (offsets, both histories, and the three time stamps)
-//! trusted: the TLV macros are given their stream semantics: the unit defines write_tlv_fields! / read_tlv_fields! as macros over a TLV record table (a ghost map from type to encoded value): `(t, e, required)` on the writing side records val(e) under t; on the reading side `(t, v, required)` assigns the value recorded under t (the table of a written record has it) and `(t, v, option)` assigns Some of it, or None when the type is absent; that the real macros implement these semantics (ordering, lengths, unknown types) is the subject of u13c and the Kani groups, not of this unit; encoded values are uninterpreted and injective per Rust type (axiom: two values of one type with the same encoding are equal)
+//! trusted: the TLV macros are given their stream semantics: the unit defines write_tlv_fields! / read_tlv_fields! as macros over a TLV record table (a ghost map from type to encoded value): `(t, e, required)` on the writing side records val(e) under t and must come in strictly increasing type order (precondition of the table's put); on the reading side `(t, v, required)` assigns the value recorded under t (the table of a written record has it) and `(t, v, option)` assigns Some of it, or None when the type is absent; that the real macros implement these semantics (ordering, lengths, unknown types) is the subject of u13c and the Kani groups, not of this unit; encoded values are uninterpreted and injective per Rust type (axiom: two values of one type with the same encoding are equal)
 //! trusted: env: Duration, HistoricalBucketRangeTracker, LegacyHistoricalBucketRangeTracker opaque; HistoricalLiquidityTracker::{from_min_max, writeable_min_offset_history, writeable_max_offset_history} external_body with their bodies' meaning (the derived field total_valid_points_tracked is recomputed and not compared); ChannelLiquidity is a field skeleton; the extracted read/write are verified as inherent functions
 //! plemma: C12 lemma_channel_liquidity_round_trip: reading the table that write produced gives back every field of the record
 use vstd::prelude::*;
@@ -33,9 +33,13 @@ impl<'a, T: TlvVal> TlvVal for &'a T { open spec fn val(&self) -> Val { (**self)
 #[verifier::external_body] pub proof fn axiom_inj_dur(a: Duration, b: Duration) requires val_dur(a) == val_dur(b) ensures a == b {}
 #[verifier::external_body] pub proof fn axiom_inj_hist(a: HistoricalBucketRangeTracker, b: HistoricalBucketRangeTracker) requires val_hist(a) == val_hist(b) ensures a == b {}
 // the TLV record table
-pub struct TlvTable { pub m: Ghost<Map<u64, Val>> }
+pub struct TlvTable { pub m: Ghost<Map<u64, Val>>, pub last: Ghost<Option<u64>> }
 impl TlvTable {
-    #[verifier::external_body] pub fn put<T: TlvVal>(&mut self, t: u64, e: &T) ensures final(self).m@ == old(self).m@.insert(t, e.val()) { unimplemented!() }
+    // a stream carries its records in strictly increasing type order (the reader refuses anything else, u13c): writing a type that is not above
+    // the last one written is an obligation of the writer
+    #[verifier::external_body] pub fn put<T: TlvVal>(&mut self, t: u64, e: &T)
+        requires old(self).last@ is None || t > old(self).last@->Some_0,
+        ensures final(self).m@ == old(self).m@.insert(t, e.val()), final(self).last@ == Some(t) { unimplemented!() }
     #[verifier::external_body] pub fn get_required<T: TlvVal>(&self, t: u64) -> (r: T) requires self.m@.contains_key(t) ensures r.val() == self.m@[t] { unimplemented!() }
     #[verifier::external_body] pub fn get_option<T: TlvVal>(&self, t: u64) -> (r: Option<T>)
         ensures r is Some == self.m@.contains_key(t), r is Some ==> r->Some_0.val() == self.m@[t] { unimplemented!() }
@@ -64,9 +68,13 @@ impl ChannelLiquidity {
     fn write(&self, w: &mut TlvTable) -> Result<(), Error>
 //@ret r
 //@requires
-    old(w).m@ == Map::<u64, Val>::empty(),
+    old(w).m@ == Map::<u64, Val>::empty(), old(w).last@ is None,
 //@ensures P C12 every-field-of-a-liquidity-record-is-written-under-its-own-tlv-type
     r is Ok, final(w).m@ =~= table_of(*self),
+//@mutant records_written_out_of_type_order
+    (9, self.offset_history_last_updated, required), (11, self.last_datapoint_time, required),
+//@with
+    (11, self.last_datapoint_time, required), (9, self.offset_history_last_updated, required),
 //@mutant decay_time_written_from_the_datapoint_time
     (9, self.offset_history_last_updated, required),
 //@with
